@@ -43,3 +43,23 @@ print("generated", "Pre.v")
 import stats_io  # noqa: E402
 stats_io.main(C.SRC, os.path.join(C.COQ, "gen", "StatsIO.v"))
 print("generated", "StatsIO.v")
+# C16: post.py (Standardize accumulate / apply scalar kernels) -> StandardizeK.v
+import standardize as standardize_c16  # noqa: E402
+try:
+    standardize_c16.main(os.path.join(C.SRC, "post.py"), os.path.join(C.COQ, "gen", "StandardizeK.v"))
+    print("generated", "StandardizeK.v")
+except Exception as e:  # the check itself reports the broken tie; keep the development buildable
+    standardize_c16.main(None, os.path.join(C.COQ, "gen", "StandardizeK.v"), fallback=True)
+    print("StandardizeK.v: translator failed (%s); reference kernels written" % e)
+# C08: all modules (class tree, aliases, constructor parameters, nested alias calls) -> C08_Registry.v
+import registry as registry_c08  # noqa: E402
+registry_c08.main(C.SRC, os.path.join(C.COQ, "gen", "C08_Registry.v"))
+print("generated", "C08_Registry.v")
+# C09: command_line.py (kaldi tool seeding/loop/exit status, data set __getitem__, map file loop, manifest key,
+# seed choice) + compute.py / torch.py (STFT framing arithmetic) -> CmdLine.v
+import cmdline as cmdline_c09  # noqa: E402
+try:
+    cmdline_c09.main(C.SRC, os.path.join(C.COQ, "gen", "CmdLine.v"))
+    print("generated", "CmdLine.v")
+except Exception as e:  # ./check C09 reports the broken tie itself; do not stop the other translators
+    print("CmdLine.v: translator failed (%s: %s); file left as it was" % (type(e).__name__, e))
